@@ -72,7 +72,7 @@ struct Cond { double normA = 0, normAinv = 0; const char *how = "";
     // conditioning of the call: the iterates live in range(P), their size is governed by max(||A^-1||, ||P||) ||f||
     double kappa_call() const { return normA * std::max(normAinv, normP); } };
 
-struct CallSpec { SolverCfg cfg; size_t maxiter = 100; int L = 2; double tol = 1e-8; double delta = 0; };
+struct CallSpec { SolverCfg cfg; size_t maxiter = 100; int L = 2; double tol = 1e-8; double delta = 0; bool ns_search = false; };
 
 // The truthful-residual oracle.  Returns false when a failure was emitted.
 //   right: reported == ||f - A x|| / ||f||;   left: reported == ||P (f - A x)|| / ||f||  (P = the solver's own preconditioner)
@@ -112,6 +112,7 @@ bool check_truthful(Case &c, const CallSpec &cs, const Csr<S> &A, const std::vec
                   J().n("iters", iters).n("maxiter", cs.maxiter).n("L", cs.L));
     // (a) truthful residual
     Residual<S> R = residual_ld(A, f, x);
+    if (cs.ns_search && R.nf == 0) R.nf = 1;      // null-space search mode: a zero right-hand side is not the trivial problem, the residual is reported relative to 1
     long double tv = R.nr / R.nf; bool tfinite = R.finite;
     if (cs.cfg.left) {
         if (tfinite) { std::vector<S> z(A.n, S()); applyP(R.r, z); long double nz = norm2_ld(z); tv = nz / R.nf; tfinite = std::isfinite((double)tv); if (!(nz < R.lim)) R.overflow = true; }   // the preconditioned residual can overflow on its own
